@@ -50,13 +50,23 @@ package server
 //@   requires [captured] a != nil && ctx != nil && newFieldsCh != nil
 //@   chaninv fieldsCh [fields-nonnil] elem != nil
 //@   chaninv newFieldsCh [fields-nonnil] elem != nil
-//@ func (*Aggregate).aggregateAndSerialize
-//@   chaninv fieldsCh [fields-nonnil] elem != nil
-//@   loop 1 invariant [group] group != nil
 //@ func (*Aggregate).nextLine$1
 //@   requires [captured] a != nil
 //@   chaninv oldLinesCh [line-wellformed] elem != nil && elem.Content != nil
+// Handing over a partial result (C06): the current group set is serialised by
+// a plain call — it is complete on the wire side before this returns and
+// before the set is replaced by an empty one — never by a goroutine that the
+// end of the session could cut short.
 //@ func (*Aggregate).aggregateAndSerialize$1
 //@   requires [captured] group != nil && ctx != nil
 //@   assigns &group, *maprMessages
 //@   ensures [group] group != nil
+//@   at-call GroupSet).Serialize [sent-synchronously-before-the-set-is-replaced] !spawned && arg0 == old(group) && arg1 == ctx
+// All lines of the session end in a final hand-over: when the fields channel is
+// closed the current set is serialised before the aggregator returns; every
+// line's fields are aggregated into the current set.
+//@ func (*Aggregate).aggregateAndSerialize
+//@   chaninv fieldsCh [fields-nonnil] elem != nil
+//@   loop 1 invariant [group] group != nil
+//@   at-call aggregateAndSerialize$1@serialize() [final-hand-over-at-end-of-input] true
+//@   at-call Aggregate).aggregate@a.aggregate(group [into-the-current-set] arg1 == group
